@@ -503,15 +503,28 @@ impl Interp {
                 let v = self.v_of(*v);
                 let t = pick_holder(pre, v, *t, false);
                 let q = pre.v[v].state.quote_asset_reserve.u128();
-                let a = match idx(*amt, 6) {
+                // what the position lacks to close at exactly zero equity (margin + spot PnL - funding owed), if it is under water
+                let deficit = |it: &Interp| -> Option<u128> {
+                    let pr = crate::oracle::pos_ref(&it.w, pre, v, t)?;
+                    let e = pr.equity(&pr.pnl_spot()?);
+                    if e.is_neg() {
+                        e.mag_u128()
+                    } else {
+                        None
+                    }
+                };
+                let a = match idx(*amt, 10) {
                     0 => d,
                     1 => 10 * d + jitter(*amt, d),
                     2 => q / 1000 + jitter(*amt, d),
                     3 => 1,
                     4 => pre.bal[t].saturating_add(1),
-                    _ => q / 50,
+                    5 => q / 50,
+                    6 => 0,
+                    7 => deficit(self).unwrap_or(d),
+                    8 => deficit(self).map(|x| x + 1).unwrap_or(2),
+                    _ => deficit(self).map(|x| x.saturating_sub(1)).unwrap_or(3),
                 };
-                let a = a.max(1);
                 let attach = match *amt % 7 {
                     3 => a + 1 + jitter(*amt, d),
                     5 if a > 1 => a - 1,
@@ -765,11 +778,16 @@ impl Interp {
                 };
                 let (mut i, mut m, mut p, mut l) = (None, None, None, None);
                 let mut pool = None;
+                let mut fund_arg = None;
                 match field % 9 {
                     8 => {
-                        // the owner points the engine at the other fee pool
+                        // the owner points the engine at the other fee pool, in half of the cases re-stating the insurance fund
+                        // (unchanged) in the same message
                         let other = if self.w.fee_pool == self.w.pools[0] { &self.w.pools[1] } else { &self.w.pools[0] };
                         pool = Some(other.to_string());
+                        if idx(*knob, 2) == 0 {
+                            fund_arg = Some(self.w.fund.to_string());
+                        }
                     }
                     0 => i = Some(vals(*knob)),
                     1 => m = Some(vals(*knob)),
@@ -790,7 +808,7 @@ impl Interp {
                     sender: self.w.owner.clone(),
                     msg: eng::ExecuteMsg::UpdateConfig {
                         owner: None,
-                        insurance_fund: None,
+                        insurance_fund: fund_arg,
                         fee_pool: pool,
                         initial_margin_ratio: i.map(u),
                         maintenance_margin_ratio: m.map(u),
@@ -915,6 +933,22 @@ impl Interp {
                     },
                 },
             },
+            Op::Intruder { v, who, kind, knob } => {
+                let v = self.v_of(*v);
+                let senders = [self.w.owner.clone(), self.w.stranger.clone(), self.w.traders[0].clone(), self.w.traders[WHALE].clone(), self.w.pauser.clone(), self.w.liquidator.clone()];
+                let sender = senders[(*who as usize) % senders.len()].clone();
+                let q = pre.v[v].state.quote_asset_reserve.u128();
+                let b = pre.v[v].state.base_asset_reserve.u128();
+                let div = [1000u128, 100, 10, 1_000_000][idx(*knob, 4)];
+                let msg = match kind % 5 {
+                    0 => vamm::ExecuteMsg::SwapInput { direction: Direction::AddToAmm, quote_asset_amount: u(q / div + 1), base_asset_limit: u(0), can_go_over_fluctuation: true },
+                    1 => vamm::ExecuteMsg::SwapInput { direction: Direction::RemoveFromAmm, quote_asset_amount: u(q / div + 1), base_asset_limit: u(0), can_go_over_fluctuation: false },
+                    2 => vamm::ExecuteMsg::SwapOutput { direction: Direction::AddToAmm, base_asset_amount: u(b / div + 1), quote_asset_limit: u(0) },
+                    3 => vamm::ExecuteMsg::SwapOutput { direction: Direction::RemoveFromAmm, base_asset_amount: u(b / div + 1), quote_asset_limit: u(0) },
+                    _ => vamm::ExecuteMsg::SettleFunding {},
+                };
+                Act::VammAdmin { v, sender, msg }
+            }
             Op::Rewire { v, what } => {
                 let v = self.v_of(*v);
                 let cfg = self.w.vamm_config(v);
